@@ -69,6 +69,8 @@ def _ordinal(sites, line, tok):
 
 
 def run(repo, rep):
+    from ..pitfalls import memo_rule as _memo_rule
+    _memo_rule(repo, rep, 'C16', 'C16.Z1')
     rep.trust('C18 for the pending classification; C06/C07 for the wire; CPython generator semantics')
     rep.rule('C16.R1', 'provider: each iteration of the match loop sends exactly one response with that match\'s status and '
              'data set; after the loop one final non-pending response; the query data set is decoded with the context\'s '
